@@ -1,4 +1,5 @@
 import RQ.Lemmas.Inodes
+import RQ.Model.Cmd
 /-!
 # Schedule independence of the save phase of the parallel driver
 
@@ -15,8 +16,7 @@ open RQ RQ.Push
 
 /-! ## Definitions -/
 
-inductive Res | ok | notFound | failed
-deriving DecidableEq, Repr
+/- `Res` (the class of the result of an operation: ok / notFound / failed) is defined in `RQ/Model/Cmd.lean`. -/
 
 /-- one operation on the file system: result class and new file system (unchanged on an error) -/
 def exec (fs : FS) (o : Op) : Res × FS :=
